@@ -176,18 +176,26 @@ impl SrtpSession {
 
     pub fn unprotect_rtp(&mut self, packet: SrtpPacket) -> SrtpResult<RtpPacket> {
         let ssrc = packet.header.ssrc;
-        self.evict_stale_rx(ssrc);
-        let ctx = match self.rx_contexts.entry(ssrc) {
-            Entry::Occupied(e) => e.into_mut(),
-            Entry::Vacant(e) => e.insert(SrtpContext::new(
+        // Only an authenticated packet may create, refresh or evict receive
+        // contexts: forged SSRCs must not be able to push the table over the
+        // high-water mark and age a genuine context (and its ROC) out of it.
+        let mut fresh = None;
+        let ctx = match self.rx_contexts.get_mut(&ssrc) {
+            Some(ctx) => ctx,
+            None => fresh.insert(SrtpContext::new(
                 ssrc,
                 self.profile,
                 self.rx_keying.clone(),
                 SrtpDirection::Receiver,
             )?),
         };
+        let unprotected = ctx.unprotect(packet)?;
         ctx.last_used = std::time::Instant::now();
-        ctx.unprotect(packet)
+        self.evict_stale_rx(ssrc);
+        if let Some(ctx) = fresh {
+            self.rx_contexts.insert(ssrc, ctx);
+        }
+        Ok(unprotected)
     }
 
     pub fn protect_rtcp(&mut self, packet: &mut Vec<u8>) -> SrtpResult<()> {
@@ -217,18 +225,24 @@ impl SrtpSession {
         }
         let ssrc = u32::from_be_bytes([packet[4], packet[5], packet[6], packet[7]]);
 
-        self.evict_stale_rx(ssrc);
-        let ctx = match self.rx_contexts.entry(ssrc) {
-            Entry::Occupied(e) => e.into_mut(),
-            Entry::Vacant(e) => e.insert(SrtpContext::new(
+        // As in `unprotect_rtp`: the table changes only after authentication.
+        let mut fresh = None;
+        let ctx = match self.rx_contexts.get_mut(&ssrc) {
+            Some(ctx) => ctx,
+            None => fresh.insert(SrtpContext::new(
                 ssrc,
                 self.profile,
                 self.rx_keying.clone(),
                 SrtpDirection::Receiver,
             )?),
         };
+        ctx.unprotect_rtcp(packet)?;
         ctx.last_used = std::time::Instant::now();
-        ctx.unprotect_rtcp(packet)
+        self.evict_stale_rx(ssrc);
+        if let Some(ctx) = fresh {
+            self.rx_contexts.insert(ssrc, ctx);
+        }
+        Ok(())
     }
 
     /// Evict stale transmit contexts once the map crosses the high-water mark.
